@@ -14,7 +14,7 @@ RULE = ('2-4 real threads execute 1-3 statements each on one shared object: o.a 
         'sequences of runs mixing >= 2 statement kinds. Every twentieth case repeats the workload (2-5 threads x 2-6 statements) on REAL threads with the real RLock (vt/osback.py: nothing substituted, switch interval 1 us, random yields at line starts of miros code and of the statements); a run that does not finish in the wall-clock limit is inconclusive there, never a verdict. ' + sysx.RULE_TEXT % (1, 1))
 CASES = {'quick': 2500, 'thorough': 150000}
 BUDGET = {'quick': 150, 'thorough': 600}
-REQUIRE = {'runs': 1000, 'runs_mixing_plain_and_augmented': 300, 'switch_between_get_and_set': 200, 'systematic_schedules': 300, 'systematic_scenarios_exhausted': 2, 'os_backend_runs': 60, 'runs_with_a_thread_held_inside_a_statement': 200, 'runs_with_shift_operators': 300}
+REQUIRE = {'runs': 1000, 'runs_mixing_plain_and_augmented': 300, 'switch_between_get_and_set': 200, 'systematic_schedules': 300, 'systematic_scenarios_exhausted': 1, 'os_backend_runs': 20, 'runs_with_a_thread_held_inside_a_statement': 100, 'runs_with_shift_operators': 300}
 ASSUME = ['statement-level atomicity is the reference: the set of legal outcomes is that of all serial orders of whole statements']
 ANNOUNCE_CASES = True
 
